@@ -45,6 +45,8 @@ type nullAnalysis struct {
 	derefs    int
 	sites     int
 	pkgPrefix string
+	noRoot    bool                          // elements only: do not descend into the fields of a non-nil element
+	extra     func(fn *ssa.Function) []edge // additional edges behind which an element is known to be present
 	callers   map[*ssa.Function][]ssa.CallInstruction
 	reported  map[ssa.Instruction]bool
 }
@@ -508,6 +510,9 @@ func (na *nullAnalysis) passToCallees(fn *ssa.Function, call ssa.CallInstruction
 	if k == kElem {
 		guards := nonNilEdgesOf(fn, func(x ssa.Value) bool { return x == v || sameElemAccess(x, v) })
 		if guardedBy(fn, call, guards) {
+			if na.noRoot {
+				return
+			}
 			// handed on only behind a nil test: the callee receives a non-nil pointer to decoded data
 			k = kRoot
 			if pt, ok := v.Type().Underlying().(*types.Pointer); !ok {
@@ -684,11 +689,17 @@ func (na *nullAnalysis) useElem(fn *ssa.Function, v ssa.Value, start ssa.Instruc
 		}
 		na.reported[d] = true
 		na.derefs++
-		na.c.ob(na.rule, fn, "deref of a pointer a JSON null / missing key leaves nil", d, guardedBy(fn, d, guards),
+		okG := guardedBy(fn, d, guards)
+		if !okG && na.extra != nil {
+			if ex := na.extra(fn); len(ex) > 0 {
+				okG = guardedBy(fn, d, append(append([]edge{}, guards...), ex...))
+			}
+		}
+		na.c.ob(na.rule, fn, na.what(), d, okG,
 			origin+": the dereference must be reachable only through the non-nil edge of a test of the same value, or behind a validation loop")
 	}
 	// the pointee, when a module struct, is decoded data too
-	if pt, ok := v.Type().Underlying().(*types.Pointer); ok {
+	if pt, ok := v.Type().Underlying().(*types.Pointer); ok && !na.noRoot {
 		if _, ok := moduleStruct(pt.Elem()); ok {
 			na.tag(fn, v, kRoot, start, origin, depth)
 		}
@@ -712,4 +723,77 @@ func ruleJSONNullable(c *Ctx, rule string) {
 	if na.sites < 10 || na.derefs < 4 {
 		c.undecided(rule, nil, "decode sites", nil, fmt.Sprintf("expected at least 10 decode sites and 4 examined dereferences, found %d / %d", na.sites, na.derefs))
 	}
+}
+
+// C18.R13 — ByKeyAndIPRanges answers a request with ranges by one entry per range, nil where the key holds no ip in the
+// range (the callers rely on that to find the ranges still to allocate). Every dereference of an element of such a result is
+// reachable only behind a nil test of that element, or behind a loop that leaves the function on a nil element.
+func ruleLookupResultNilChecked(c *Ctx, rule string) {
+	na := &nullAnalysis{c: c, la: c.locks(), rule: rule, pkgPrefix: modPath + "pkg/", seen: map[nkey]bool{}, nn: map[ssa.Value]string{}, reported: map[ssa.Instruction]bool{}, noRoot: true}
+	// a request without ranges is answered densely: behind `len(ranges) == 0` every entry is present
+	na.extra = func(fn *ssa.Function) []edge {
+		return guardEdges(fn, func(v ssa.Value) (bool, int) {
+			bo, ok := v.(*ssa.BinOp)
+			if !ok {
+				return false, 0
+			}
+			call, ok := bo.X.(*ssa.Call)
+			if !ok || calleeName(call) != "builtin.len" || !strings.Contains(call.Call.Args[0].Type().String(), "IPRange") {
+				return false, 0
+			}
+			n, isC := constIntVal(bo.Y)
+			if !isC || n != 0 {
+				return false, 0
+			}
+			switch bo.Op {
+			case token.EQL:
+				return true, 0
+			case token.NEQ, token.GTR:
+				return true, 1
+			}
+			return false, 0
+		})
+	}
+	na.callers = map[*ssa.Function][]ssa.CallInstruction{}
+	old := structModPrefix
+	structModPrefix = c.Mod
+	defer func() { structModPrefix = old }()
+	for _, fn := range c.SrcFns {
+		allInstrs(fn, func(in ssa.Instruction) {
+			if call, ok := in.(ssa.CallInstruction); ok {
+				for _, g := range na.la.calleesOf(call) {
+					na.callers[g] = append(na.callers[g], call)
+				}
+			}
+		})
+	}
+	sites := 0
+	for _, fn := range c.SrcFns {
+		if isGenerated(fn) || !strings.HasPrefix(fn.Pkg.Pkg.Path(), modPath+"pkg/ipam/schedulerplugin") && !strings.HasPrefix(fn.Pkg.Pkg.Path(), modPath+"pkg/ipam/api") {
+			continue
+		}
+		for _, call := range callsLocal(fn, "IPAM).ByKeyAndIPRanges") {
+			args := callArgs(call)
+			if len(args) < 2 || isNilConst(args[1]) {
+				continue // without ranges the result is dense
+			}
+			sites++
+			for _, ref := range *call.Value().Referrers() {
+				if ex, ok := ref.(*ssa.Extract); ok && ex.Index == 0 {
+					na.tag(fn, ex, kSlice, call, fmt.Sprintf("result of ByKeyAndIPRanges(key, ranges) at %s", c.instrPos(call)), 0)
+				}
+			}
+		}
+	}
+	c.note("%s: %d lookups with ranges, %d dereferences of their elements examined", rule, sites, na.derefs)
+	if sites < 2 || na.derefs < 3 {
+		c.undecided(rule, nil, "lookups with ranges", nil, fmt.Sprintf("expected at least 2 lookups and 3 element dereferences, found %d / %d", sites, na.derefs))
+	}
+}
+
+func (na *nullAnalysis) what() string {
+	if na.noRoot {
+		return "deref of an entry that is nil when the key holds no ip in the range"
+	}
+	return "deref of a pointer a JSON null / missing key leaves nil"
 }
